@@ -1678,6 +1678,11 @@ class RaiseModel:
                     continue
                 out |= self.summary(sc)[0]
             return out
+        # a dunder of the iteration protocol called by hand on a value the caller supplied (`iterable.__aiter__()`,
+        # `it.__next__()`) runs the caller's code like the `for` statement it replaces
+        if kind == 'method' and isinstance(call.func, ast.Attribute) and call.func.attr in ('__aiter__', '__iter__', '__anext__', '__next__') \
+                and isinstance(call.func.value, ast.Name) and is_user_value(cfg, call.func.value):
+            return {ANY}
         name = info['name'] or ''
         if name in ('builtins.sorted', 'builtins.min', 'builtins.max', 'builtins.sum') and (
                 any(isinstance(a_, ast.Name) and is_user_value(cfg, a_) for a_ in call.args)
